@@ -17,8 +17,10 @@ import (
 	"testing"
 
 	errs "github.com/cloudwego/hertz/pkg/common/errors"
+	"github.com/cloudwego/hertz/pkg/network"
 	"github.com/cloudwego/hertz/pkg/protocol"
 	"github.com/cloudwego/hertz/pkg/protocol/http1"
+	hreq "github.com/cloudwego/hertz/pkg/protocol/http1/req"
 	"pgregory.net/rapid"
 
 	"verifharness/cli"
@@ -56,7 +58,15 @@ type ReqSpec struct {
 	// appended (a fragment is never sent); "requery": the query is first set to something else and read,
 	// then replaced through SetQueryString
 	URLForm string `json:"url_form,omitempty"`
-	body    []byte
+	// HeaderFraming: a second step on the framing of a stream body through the header API. "set-cl": after
+	// SetBodyStream(r, -1) the length is declared with Header.Set("Content-Length", n) (a proxy copying upstream
+	// headers); "del-cl": after SetBodyStream(r, n) the field is deleted again (hop-by-hop stripping): the body
+	// is then one of unknown length
+	HeaderFraming string `json:"header_framing,omitempty"`
+	// Dirty: the Request object carried another request before (POST with a body, written once), then ResetBody
+	// and the setters of this request: the usual way to reuse one object for several calls
+	Dirty bool `json:"request_object_reused,omitempty"`
+	body  []byte
 }
 
 type Config struct {
@@ -126,6 +136,17 @@ func genReq(t *rapid.T, idx int) *ReqSpec {
 		mode = rapid.SampledFrom([]string{"none", "bytes", "bytes", "stream-known", "stream-unknown", "form", "multipart"}).Draw(t, "bodyMode")
 	}
 	r.BodyMode = mode
+	switch mode {
+	case "stream-unknown":
+		if rapid.IntRange(0, 3).Draw(t, "setContentLengthHeader") == 0 {
+			r.HeaderFraming = "set-cl"
+		}
+	case "stream-known":
+		if rapid.IntRange(0, 3).Draw(t, "delContentLengthHeader") == 0 {
+			r.HeaderFraming = "del-cl"
+		}
+	}
+	r.Dirty = rapid.IntRange(0, 3).Draw(t, "requestObjectReused") == 0
 	// io.Reader bodies deliver their bytes in short reads (an io.Reader may return less than asked)
 	r.Step = rapid.SampledFrom([]int{1, 7, 100, 511, 512, 513, 1000, 4096, 1 << 20}).Draw(t, "readerStep")
 	switch mode {
@@ -161,6 +182,13 @@ func genReq(t *rapid.T, idx int) *ReqSpec {
 
 func (r *ReqSpec) build(cfg *Config, api int) *protocol.Request {
 	req := protocol.AcquireRequest()
+	if r.Dirty {
+		req.Header.SetMethod("POST")
+		req.SetRequestURI("http://" + r.Host + "/earlier?x=1") // (the same host: a Request keeps the Host field it was written with)
+		req.SetBodyString("hello")
+		hreq.Write(req, network.NewWriter(io.Discard)) //nolint:errcheck
+		req.ResetBody()
+	}
 	req.Header.SetMethod(r.Method)
 	if api == 0 {
 		// full URL through SetRequestURI (escaped form)
@@ -199,6 +227,11 @@ func (r *ReqSpec) build(cfg *Config, api int) *protocol.Request {
 			req.URI().QueryArgs().Add(kv.K, kv.V)
 		}
 	}
+	if r.Dirty {
+		// (client.Client.Do parses the URI of every request to find its host client; with a Host field left by
+		// the earlier use HostClient.Do alone would send the raw URL string as the target)
+		req.ParseURI()
+	}
 	for i, h := range r.Headers {
 		if i%2 == 0 {
 			req.SetHeader(h.K, h.V)
@@ -211,8 +244,14 @@ func (r *ReqSpec) build(cfg *Config, api int) *protocol.Request {
 		req.SetBody(r.body)
 	case "stream-known":
 		req.SetBodyStream(&pieceReader{data: append([]byte(nil), r.body...), step: r.Step}, len(r.body))
+		if r.HeaderFraming == "del-cl" {
+			req.Header.Del("Content-Length")
+		}
 	case "stream-unknown":
 		req.SetBodyStream(&pieceReader{data: append([]byte(nil), r.body...), step: r.Step}, -1)
+		if r.HeaderFraming == "set-cl" {
+			req.Header.Set("Content-Length", fmt.Sprint(len(r.body)))
+		}
 	case "form":
 		m := map[string]string{}
 		for _, kv := range r.Form {
@@ -662,6 +701,14 @@ func classify(c *Case) (bool, []string) {
 		cls = append(cls, "client-streaming")
 	} else {
 		cls = append(cls, "client-buffered")
+	}
+	for _, ex := range c.Ex {
+		if ex.Req.HeaderFraming != "" {
+			cls = append(cls, "request-framing-"+ex.Req.HeaderFraming)
+		}
+		if ex.Req.Dirty {
+			cls = append(cls, "request-object-reused")
+		}
 	}
 	if c.Cfg.Proxy {
 		cls = append(cls, "via-proxy")
